@@ -731,9 +731,12 @@ func binTerm(op token.Token, a, b *Term, typ types.Type) *Term {
 			return a
 		}
 	}
-	// x + 0, x - 0
+	// x + 0, x - 0, 0 + x
 	if (op == token.ADD || op == token.SUB) && b.IsConst() && b.Val.Kind() == constant.Int && constant.Sign(b.Val) == 0 {
 		return a
+	}
+	if op == token.ADD && a.IsConst() && a.Val.Kind() == constant.Int && constant.Sign(a.Val) == 0 {
+		return b
 	}
 	return mk("bin", op.String(), typ, a, b)
 }
@@ -799,3 +802,68 @@ func sortedKeys[M ~map[string]V, V any](m M) []string {
 }
 
 var _ = fmt.Sprintf
+
+
+// linearize writes an integer term as sum(coeff * atom) + c; ok is false when
+// the term contains a product of two non-constants.
+func linearize(t *Term) (map[string]int64, map[string]*Term, int64, bool) {
+	coef := map[string]int64{}
+	atoms := map[string]*Term{}
+	var c int64
+	ok := true
+	var walk func(t *Term, k int64)
+	walk = func(t *Term, k int64) {
+		if v, isC := t.IntVal(); isC {
+			c += k * v
+			return
+		}
+		if t.Op == "conv" && len(t.Args) == 1 && isIntType(t.Type) && isIntType(t.Args[0].Type) {
+			walk(t.Args[0], k)
+			return
+		}
+		if t.Op == "bin" {
+			switch t.Name {
+			case "+":
+				walk(t.Args[0], k)
+				walk(t.Args[1], k)
+				return
+			case "-":
+				walk(t.Args[0], k)
+				walk(t.Args[1], -k)
+				return
+			case "*":
+				if v, isC := t.Args[0].IntVal(); isC {
+					walk(t.Args[1], k*v)
+					return
+				}
+				if v, isC := t.Args[1].IntVal(); isC {
+					walk(t.Args[0], k*v)
+					return
+				}
+			}
+		}
+		coef[t.Key()] += k
+		atoms[t.Key()] = t
+	}
+	walk(t, 1)
+	for k, v := range coef {
+		if v == 0 {
+			delete(coef, k)
+		}
+	}
+	return coef, atoms, c, ok
+}
+
+func sameLinear(a, b *Term) bool {
+	ca, _, ka, _ := linearize(a)
+	cb, _, kb, _ := linearize(b)
+	if ka != kb || len(ca) != len(cb) {
+		return false
+	}
+	for k, v := range ca {
+		if cb[k] != v {
+			return false
+		}
+	}
+	return true
+}
